@@ -337,6 +337,14 @@ def mon_delete(world, ev, before, rec, after):
     if q:
         out.append({'what': 'branch deleted while pull requests are queued on it', 'prs': q,
                     'key': 'delete_with_queued_prs'})
+    # well-formed: no queue branch of the deleted branch survives it (q/<version>, q/w/<pr>/<version>/...; the queue
+    # of a hotfix branch carries a fourth number)
+    ver = d[4]
+    orphans = sorted(n for n in after['refs'] if re.match(
+        r'^q/(w/\d+/)?%s%s(/|$)' % (re.escape(ver), r'\.\d+' if d[0] == 'hotfix' else ''), n))
+    if orphans:
+        out.append({'what': 'delete succeeded but left queue branches of the deleted branch behind', 'refs': orphans,
+                    'key': 'delete_left_orphan_queue'})
     if d[0] == 'dev':
         live = [n for n in b if (parse_dest(n) or ('',))[0] == 'stab' and parse_dest(n)[1:3] == d[1:3]]
         if live:
